@@ -239,9 +239,59 @@ def _replace(fn, parent, old, new):
     raise ValueError('node to replace not found')
 
 
+def leading_run_loops(fn):
+    """LEADING RUN   cnt = 0 ... for c in X: (if c == ITEM: cnt += 1 / else: break)   counts the leading items of X equal to ITEM:
+    the loop becomes `cnt = __leadrun__(X, ITEM)` (the evaluator turns the call into the operator LEADRUN, the same operator
+    that `len(X) - len(X.lstrip(P))` is brought to by refcmp.canon).  Conditions: cnt is a plain local that is the constant 0
+    when the loop is reached (its last binding before the loop, at the same nesting level), the loop has no else clause and
+    the body is exactly the test-and-count shown (either arm order)."""
+    done = []
+
+    def rewrite(body):
+        for i, st in enumerate(list(body)):
+            for fld in ('body', 'orelse', 'finalbody'):
+                sub = getattr(st, fld, None)
+                if isinstance(sub, list) and sub and isinstance(sub[0], ast.stmt):
+                    rewrite(sub)
+            if not (isinstance(st, ast.For) and not st.orelse and isinstance(st.target, ast.Name) and len(st.body) == 1
+                    and isinstance(st.body[0], ast.If)):
+                continue
+            iff = st.body[0]
+            t = iff.test
+            if not (isinstance(t, ast.Compare) and len(t.ops) == 1 and isinstance(t.ops[0], (ast.Eq, ast.NotEq))
+                    and isinstance(t.left, ast.Name) and t.left.id == st.target.id):
+                continue
+            eq_arm, ne_arm = (iff.body, iff.orelse) if isinstance(t.ops[0], ast.Eq) else (iff.orelse, iff.body)
+            if not (len(eq_arm) == 1 and isinstance(eq_arm[0], ast.AugAssign) and isinstance(eq_arm[0].op, ast.Add)
+                    and isinstance(eq_arm[0].target, ast.Name) and isinstance(eq_arm[0].value, ast.Constant) and eq_arm[0].value.value == 1
+                    and len(ne_arm) == 1 and isinstance(ne_arm[0], ast.Break)):
+                continue
+            cnt = eq_arm[0].target.id
+            # the counter's last binding before the loop, in this block, must be the constant 0
+            init = None
+            for prev in reversed(body[:i]):
+                names = {n.id for n in ast.walk(prev) if isinstance(n, ast.Name) and isinstance(n.ctx, (ast.Store, ast.Del))}
+                if cnt in names:
+                    init = prev
+                    break
+            if not (isinstance(init, ast.Assign) and len(init.targets) == 1 and isinstance(init.targets[0], ast.Name)
+                    and isinstance(init.value, ast.Constant) and init.value.value == 0 and init.value.value is not False):
+                continue
+            if any(isinstance(n, ast.Name) and n.id in (cnt, st.target.id) for n in ast.walk(t.comparators[0])) \
+                    or any(isinstance(n, ast.Name) and n.id == cnt for n in ast.walk(st.iter)):
+                continue
+            call = ast.Call(func=ast.Name(id='__leadrun__', ctx=ast.Load()), args=[st.iter, t.comparators[0]], keywords=[])
+            new = ast.Assign(targets=[ast.Name(id=cnt, ctx=ast.Store())], value=call)
+            ast.copy_location(new, st)
+            body[i] = new
+            done.append(cnt)
+    rewrite(fn.body)
+    return done
+
+
 def normalise(fn, helpers, level=2):
     """Normalised deep copy of the FunctionDef `fn`; second result: what was done (for the evidence).
-    level 0: nothing; 1: helper inlining; 2: helper inlining and string accumulators."""
+    level 0: nothing; 1: helper inlining; 2: helper inlining and string accumulators; 3: also leading-run counting loops."""
     fn = copy.deepcopy(fn)
     notes = []
     if level >= 1:
@@ -252,5 +302,9 @@ def normalise(fn, helpers, level=2):
         acc = string_accumulators(fn)
         if acc:
             notes.append('list accumulators joined into a string treated as string accumulators: %s' % acc)
+    if level >= 3:
+        lr = leading_run_loops(fn)
+        if lr:
+            notes.append('leading-run counting loops treated as the run-length operator: %s' % lr)
     ast.fix_missing_locations(fn)
     return fn, notes
